@@ -4,6 +4,7 @@
 package simstore
 
 import (
+	"os"
 	"runtime"
 	"context"
 	"errors"
@@ -200,6 +201,11 @@ func (d *DS) enter(ctx context.Context, op, store, sig string, isWrite bool) (Op
 		lat = d.cfg.StallLatency + time.Duration(d.run.H("stalld", req, sig, occ)%uint64(d.cfg.StallLatency))
 	}
 	if err := d.run.SleepUnique(ctx, lat); err != nil {
+		d.run.Log("ds_ctx", req+" "+sig+" interrupted: "+err.Error())
+		if os.Getenv("VSIM_STACK") == req {
+			buf := make([]byte, 32<<10)
+			fmt.Fprintf(os.Stderr, "VSIM_STACK %s %s: %v cause=%v\n%s\n", req, sig, err, context.Cause(ctx), buf[:runtime.Stack(buf, false)])
+		}
 		return info, err
 	}
 	kind := FaultOpenErr
